@@ -142,3 +142,11 @@ Fixpoint reports (qs : list request) (xs : list out) : list reply :=
     | Some o => match xs with x :: xs' => report o x :: reports r xs' | [] => [] end
     end
   end.
+
+(* what the correspondence check prints for one request sequence: every reply with the stored (namespace, name) pairs after it *)
+Definition serve_trace (qs : list request) : list (reply * list (N * N)) :=
+  (fix go (s : ws) (qs : list request) :=
+     match qs with
+     | [] => []
+     | q :: r => let (s1, x) := serve replace_fixed s q in (x, map (fun d => (ns d, nm d)) (defs s1)) :: go s1 r
+     end) init qs.
